@@ -183,6 +183,13 @@ def check_zoned(c, provider, source, key, mk, w, is_utc_key):
     ev0 = Event()
     ev0.add("uid", "zero-extent")
     ev0.add("rdate", [(val, timedelta(0))])
+    # lists handed over as one-shot iterables (a generator, a map object): still lists of zoned values
+    w3 = w + timedelta(days=1, hours=1)
+    ev0.add("exdate", (x for x in (val, mk(w3))))
+    ev0.add("x-gen-marker", "1")
+    ev1 = Event()
+    ev1.add("uid", "map-object")
+    ev1.add("exdate", map(lambda x: x, [val, mk(w3), mk(w3 + timedelta(days=1))]))
     fb0 = FreeBusy()
     fb0.add("freebusy", (val, val))
     cal = Calendar()
@@ -190,6 +197,7 @@ def check_zoned(c, provider, source, key, mk, w, is_utc_key):
     cal.add_component(fb)
     cal.add_component(ev0)
     cal.add_component(fb0)
+    cal.add_component(ev1)
     c.trans += 2
     try:
         data = cal.to_ical()
@@ -217,7 +225,7 @@ def check_zoned(c, provider, source, key, mk, w, is_utc_key):
             c.fail("rdate-period:emitted-line", elem, want_p, rl)
         for nm, wl in (("RECURRENCE-ID", f"RECURRENCE-ID;RANGE=THISANDFUTURE;TZID={key}:{fmt(w)}"),
                        ("EXDATE", f"EXDATE;TZID={key};X-WHY=moved:{fmt(w)},{fmt(w2)}")):
-            if prop_line(data, nm) != [wl]:
+            if wl not in prop_line(data, nm):
                 c.fail("with-own-parameters:emitted-line", elem, wl, prop_line(data, nm))
         fl = prop_line(data, "FREEBUSY")
         want_f1 = f"FREEBUSY;TZID={key};VALUE=PERIOD:{fmt(w)}/{fmt(w + timedelta(hours=2))}"
@@ -261,6 +269,18 @@ def check_zoned(c, provider, source, key, mk, w, is_utc_key):
         chk("zero-extent-freebusy.end", zf.end, w)
     except (KeyError, IndexError, AttributeError, TypeError) as e:
         c.fail("zero-extent-periods:shape", elem, "RDATE period and FREEBUSY of no extent", f"{type(e).__name__}: {e}")
+    try:
+        g0 = back.walk("VEVENT")[1]["EXDATE"].dts
+        g1 = back.walk("VEVENT")[2]["EXDATE"].dts
+        if len(g0) != 2 or len(g1) != 3:
+            c.fail("one-shot-iterable:arity", elem, (2, 3), (len(g0), len(g1)))
+        else:
+            chk("generator[0]", g0[0].dt, w)
+            chk("generator[1]", g0[1].dt, w2)
+            chk("map[0]", g1[0].dt, w)
+            chk("map[2]", g1[2].dt, w2 + timedelta(days=1))
+    except (KeyError, IndexError, AttributeError, TypeError) as e:
+        c.fail("one-shot-iterable:shape", elem, "EXDATE lists", f"{type(e).__name__}: {e}")
     rid, exd = ev2.get("RECURRENCE-ID"), ev2.get("EXDATE")
     if rid is None or exd is None or isinstance(rid, list) or isinstance(exd, list) or len(exd.dts) != 2:
         c.fail("with-own-parameters:shape", elem, "one RECURRENCE-ID, one EXDATE of two", (repr(rid), repr(exd)))
